@@ -2,6 +2,8 @@ import Driver.Proto
 import Gotree.Model.C08
 import Gotree.Model.C08HM
 import Gotree.Model.C08Zero
+import Gotree.Model.C08Cli
+import Gotree.Gen.C08Glue
 import Gotree.Spec.C08
 import Gotree.Spec.C05
 
@@ -257,7 +259,8 @@ def handleCore (op : String) (f : List String) : Verdict :=
       let tags := "weighted" :: pairTags r c tips sc ++
         tagIf ((r.edges ++ c.edges).any (·.len == NIL)) "absent-len" ++
         tagIf (lensPresent tips r && lensPresent tips c) "hyp-lens-present" ++
-        tagIf ((r.edges ++ c.edges).any (·.len == 0)) "zero-len"
+        tagIf ((r.edges ++ c.edges).any (·.len == 0)) "zero-len" ++
+        tagIf ((r.edges ++ c.edges).any fun e => e.len < 0 && e.len != NIL) "negative-len"
       let hyp := unrootedOK r && unrootedOK c && r.uniqueTips && c.uniqueTips && sameTaxa r c
       let views := sameView r r2 && sameView c c2
       let tags := tags ++ tagIf views "rerooted-copy" ++
@@ -521,12 +524,81 @@ def handleCore (op : String) (f : List String) : Verdict :=
     | _, _ => bad "C08.clitips fields"
   | _, _ => bad ("C08: unknown op " ++ op)
 
-/-- the comparison cases carry, as a last field, the number of worker goroutines used -/
+/-- the flags a mode of the harness stands for -/
+def flagsOf (mode : String) (tips : Bool) : Option Flags :=
+  match mode with
+  | "plain" => some ⟨tips, false, false, false⟩
+  | "rf" => some ⟨tips, false, true, false⟩
+  | "binary" => some ⟨tips, true, false, false⟩
+  | "weighted" => some ⟨tips, false, false, true⟩
+  | "wbinary" => some ⟨tips, true, false, true⟩
+  | "rf+binary" => some ⟨tips, true, true, false⟩
+  | "rf+weighted" => some ⟨tips, false, true, true⟩
+  | "rf+wbinary" => some ⟨tips, true, true, true⟩
+  | _ => none
+
+/-- `gotree compare trees` with the text of its standard output: the rows are judged in the mode the
+    DOCUMENTATION gives for the flags (`docMode`: oracle and tie of `handleCore`), then the whole text
+    is tied to the model of the command — the interpreter `cliOutput` run on the table regenerated
+    from the working tree (`Gen.C08Glue.glue`), so that a change of the glue that the table
+    follows is judged by the oracle alone, and one it does not follow breaks the tie. -/
+def handleCli (mode tipsS dR dCs outcome rowsS stdoutE : String) : Verdict :=
+  match parseBool tipsS with
+  | none => bad "C08.cli tips"
+  | some tips =>
+  match flagsOf mode tips with
+  | none => bad ("C08.cli mode " ++ mode)
+  | some fl =>
+    let v := handleCore "cli" [docMode fl, tipsS, dR, dCs, outcome, rowsS]
+    let v := { v with tags := v.tags ++ ["cli-flags-" ++ mode] ++ tagIf (fl.rf && (fl.binary || fl.weighted)) "cli-flag-combination" }
+    if v.status != .pass then v else
+    match T.undump dR, (splitTerm "|" dCs).mapM T.undump, unescape stdoutE with
+    | some r, some cs, some text =>
+      if !(r.uniqueTips && cs.all (·.uniqueTips)) then v else
+      -- table and model agree on what is called and printed?  (fidelity of the table: reported as a tag)
+      let v := { v with tags := v.tags ++ tagIf (Gotree.Gen.C08Glue.glue == expectedGlue) "table-as-expected" }
+      match cliOutput Gotree.Gen.C08Glue.glue fl r cs, cliOutput expectedGlue fl r cs with
+      | some (t, failed), some (t0, failed0) =>
+        let v := { v with tags := v.tags ++ ["cli-text"] }
+        if failed != (outcome != "ok") then
+          { v with status := .tie, detail := "model of the command: " ++ (if failed then "fails" else "succeeds") ++ ", the command: " ++ outcome }
+        else if (if failed then !text.startsWith t else text != t) then
+          { v with status := .tie, detail := "model of the command writes " ++ t.quote ++ ", the command wrote " ++ text.quote }
+        else if t != t0 || failed != failed0 then
+          { v with status := .tie, detail := "the regenerated table prints " ++ t.quote ++ ", the table of the model " ++ t0.quote }
+        else v
+      | none, none => { v with tags := v.tags ++ ["cli-text-float"] }
+      | _, _ => { v with status := .tie, detail := "the regenerated table is not one the model of the command can interpret" }
+    | _, _, _ => bad "C08.cli text"
+
+/-- the comparison cases carry, as a last field, the number of worker goroutines asked for -/
 def handle (op : String) (f : List String) : Verdict :=
   if (op == "cmp" || op == "wcmp") && f.length == 10 then
     let v := handleCore op (f.take 9)
     let thr := f.getLast?.getD ""
-    { v with tags := v.tags ++ ["workers-" ++ thr] ++ tagIf (thr != "1") "multi-worker" }
-  else handleCore op f
+    { v with tags := v.tags ++ ["workers-" ++ thr] ++ tagIf (thr != "1") "multi-worker" ++
+        tagIf (thr.startsWith "-" || thr == "0") "cpus-below-1" ++
+        tagIf (workersOf (thr.toInt?.getD 1) != (thr.toInt?.getD 1).toNat) "model-cpus-clamped" }
+  else match op, f with
+    | "cli", ["nocompared", _, dR, _, outcome, rowsS, stdoutE] =>
+      -- no `-c`: the command must fail with an error and print no row (model `cliRun … none`)
+      let tags := ["cli", "cli-nocompared"]
+      (match T.undump dR with
+       | none => bad "C08.cli fields"
+       | some r =>
+         if outcome != "error" then ⟨.oracle, tags, "compare trees without -c did not fail with an error: " ++ outcome⟩
+         else if rowsS != "" then ⟨.oracle, tags, "compare trees without -c printed rows"⟩
+         else match cliRun expectedGlue ⟨false, false, false, false⟩ r none, unescape stdoutE with
+           | some (t, true), some text => if text.startsWith t then ⟨.pass, tags, ""⟩ else ⟨.tie, tags, "model writes nothing"⟩
+           | _, _ => ⟨.tie, tags, "model of the command without -c"⟩)
+    | "cli", [mode, tipsS, dR, dCs, outcome, rowsS, stdoutE] => handleCli mode tipsS dR dCs outcome rowsS stdoutE
+    | "cli", [mode, tipsS, dR, dCs, outcome, rowsS] =>
+      -- (a case reported by the parent of a dead executor: no text)
+      (match parseBool tipsS with
+       | some tips => (match flagsOf mode tips with
+          | some fl => handleCore "cli" [docMode fl, tipsS, dR, dCs, outcome, rowsS]
+          | none => bad ("C08.cli mode " ++ mode))
+       | none => bad "C08.cli tips")
+    | _, _ => handleCore op f
 
 end Gotree.Driver.C08
